@@ -42,6 +42,11 @@ fn ty_with(rng: &mut Rng, names: &[String], refs: &mut Vec<String>) -> String {
 }
 
 pub fn gen_pkg(rng: &mut Rng, idx: usize) -> APkg {
+  gen_pkg_named(rng, idx, "", "@s/a")
+}
+
+/// `prefix` keeps the declaration names of different packages of one world apart
+pub fn gen_pkg_named(rng: &mut Rng, idx: usize, prefix: &str, pkg_name: &str) -> APkg {
   let nfiles = 2 + rng.below(4);
   // phase 1: declaration names and kinds
   let mut plan: Vec<Vec<Planned>> = vec![];
@@ -51,9 +56,9 @@ pub fn gen_pkg(rng: &mut Rng, idx: usize) -> APkg {
     let mut has_default = false;
     for j in 0..k {
       let kind = *rng.pick(&["class", "interface", "type", "enum", "function", "const", "class", "interface"]);
-      let is_default = !has_default && matches!(kind, "class" | "function") && rng.chance(1, 8);
+      let is_default = !has_default && matches!(kind, "class" | "function") && rng.chance(1, 3);
       has_default |= is_default;
-      v.push(Planned { name: format!("N{}_{}", i, j), exported: is_default || rng.chance(3, 5), is_default, kind });
+      v.push(Planned { name: format!("{}N{}_{}", prefix, i, j), exported: is_default || rng.chance(3, 5), is_default, kind });
     }
     plan.push(v);
   }
@@ -235,7 +240,241 @@ pub fn gen_pkg(rng: &mut Rng, idx: usize) -> APkg {
   if nfiles > 2 && idx % 3 == 0 {
     exports.push(("./other".into(), format!(".{}", path_of(nfiles - 1))));
   }
-  APkg { name: "@s/a".into(), version: "1.0.0".into(), exports, files }
+  APkg { name: pkg_name.into(), version: "1.0.0".into(), exports, files }
+}
+
+/// several packages; earlier ones refer to the entrypoint of later ones (`export *`, named /
+/// default / type-only imports used in public signatures, named re-exports).  `cross[i]` lists the
+/// items added to package i for that, so that a variant of the world without them can be made
+pub struct MultiWorld {
+  pub pkgs: Vec<APkg>,
+  /// (package, file, item) triples of the cross-package items
+  pub cross: Vec<(usize, usize, Item)>,
+  /// packages `main.ts` imports
+  pub top_level: Vec<usize>,
+}
+
+pub fn gen_multi(rng: &mut Rng, idx: usize, shared_dependency: bool) -> MultiWorld {
+  let names = ["@s/a", "@s/b", "@s/c"];
+  let prefixes = ["A", "B", "C"];
+  let np = if shared_dependency { 3 } else { 2 + rng.below(2) };
+  let mut pkgs: Vec<APkg> = (0..np)
+    .map(|k| {
+      let mut p = gen_pkg_named(rng, idx * 3 + 1, prefixes[k], names[k]);
+      p.exports.truncate(1);
+      p
+    })
+    .collect();
+  let mut cross = vec![];
+  // who refers to whom: a diamond (a -> c, b -> c) or a chain of references to later packages
+  let edges: Vec<(usize, usize)> = if shared_dependency { vec![(0, 2), (1, 2)] } else { (0..np).flat_map(|a| (a + 1..np).map(move |b| (a, b))).collect() };
+  for (a, b) in edges {
+    if !shared_dependency && rng.chance(1, 3) {
+      continue;
+    }
+    let from = format!("jsr:{}", names[b]);
+    // what the entrypoint of b exports by declaration
+    let entry_decls: Vec<Decl> = pkgs[b].files[0].items.iter().filter_map(|it| if let Item::Decl(d) = it { Some(d.clone()) } else { None }).collect();
+    let type_capable = |d: &Decl| matches!(d.kind, DeclKind::Class { .. } | DeclKind::Interface { .. } | DeclKind::TypeAlias { .. } | DeclKind::Enum);
+    let named: Vec<&Decl> = entry_decls.iter().filter(|d| d.exported && !d.is_default && type_capable(d)).collect();
+    let default: Option<&Decl> = entry_decls.iter().find(|d| d.is_default && type_capable(d));
+    let nfiles = pkgs[a].files.len();
+    let mut forms: Vec<usize> = (0..4).filter(|_| shared_dependency || rng.chance(1, 2)).collect();
+    if forms.is_empty() {
+      forms.push(0);
+    }
+    for f in forms {
+      let fi = rng.below(nfiles);
+      let mut add: Vec<Item> = vec![];
+      match f {
+        0 => add.push(Item::ExportStar { from: from.clone() }),
+        1 => {
+          if let Some(d) = named.first() {
+            let local = format!("{}In{}f{}", d.name, prefixes[a], fi);
+            add.push(Item::Import { from: from.clone(), names: vec![(d.name.clone(), local.clone())], type_only: rng.chance(1, 2) });
+            add.push(Item::Decl(Decl {
+              name: format!("Uses{}", local),
+              exported: true,
+              is_default: false,
+              kind: DeclKind::Interface { extends: vec![], props: vec![("x".into(), local.clone())] },
+              sig_refs: vec![local],
+              body_refs: vec![],
+              generics: String::new(),
+            }));
+          }
+        }
+        2 => {
+          if default.is_some() {
+            let local = format!("Def{}In{}f{}", prefixes[b], prefixes[a], fi);
+            add.push(Item::ImportDefault { from: from.clone(), local: local.clone() });
+            add.push(Item::Decl(Decl {
+              name: format!("Uses{}", local),
+              exported: true,
+              is_default: false,
+              kind: DeclKind::Interface { extends: vec![], props: vec![("d".into(), local.clone())] },
+              sig_refs: vec![local],
+              body_refs: vec![],
+              generics: String::new(),
+            }));
+          }
+        }
+        _ => {
+          if let Some(d) = named.last() {
+            add.push(Item::ExportFrom { from: from.clone(), names: vec![(d.name.clone(), format!("{}Via{}f{}", d.name, prefixes[a], fi))] });
+          }
+        }
+      }
+      for it in add {
+        // before the trailing side-effect statement
+        let pos = pkgs[a].files[fi].items.len().saturating_sub(1);
+        pkgs[a].files[fi].items.insert(pos, it.clone());
+        cross.push((a, fi, it));
+      }
+    }
+  }
+  let top_level: Vec<usize> = if shared_dependency { vec![0, 1] } else { (0..np).collect() };
+  MultiWorld { pkgs, cross, top_level }
+}
+
+impl MultiWorld {
+  /// the same world with the cross-package items of package `a` removed
+  pub fn without_cross_of(&self, a: usize) -> MultiWorld {
+    let mut pkgs = self.pkgs.clone();
+    for (pa, fi, it) in &self.cross {
+      if *pa == a {
+        if let Some(pos) = pkgs[*pa].files[*fi].items.iter().position(|x| x == it) {
+          pkgs[*pa].files[*fi].items.remove(pos);
+        }
+      }
+    }
+    MultiWorld { pkgs, cross: self.cross.iter().filter(|c| c.0 != a).cloned().collect(), top_level: self.top_level.clone() }
+  }
+  pub fn world(&self) -> FcWorld {
+    FcWorld {
+      main: self.top_level.iter().map(|k| format!("import 'jsr:{}';\n", self.pkgs[*k].name)).collect(),
+      pkgs: self
+        .pkgs
+        .iter()
+        .map(|p| FcPackage { name: p.name.clone(), version: p.version.clone(), exports: p.exports.clone(), files: p.files.iter().map(|f| (f.path.clone(), render_file(f))).collect() })
+        .collect(),
+    }
+  }
+  fn offset(&self, pi: usize) -> usize {
+    self.pkgs[..pi].iter().map(|p| p.files.len()).sum()
+  }
+  /// global module index of a specifier written in file `fi` of package `pi`
+  fn module_index(&self, pi: usize, spec: &str) -> Option<usize> {
+    if let Some(name) = spec.strip_prefix("jsr:") {
+      let qi = self.pkgs.iter().position(|p| p.name == name)?;
+      let entry = self.pkgs[qi].exports[0].1.trim_start_matches('.').to_string();
+      let fi = self.pkgs[qi].files.iter().position(|f| f.path == entry)?;
+      return Some(self.offset(qi) + fi);
+    }
+    let path = spec.strip_prefix('.')?;
+    self.pkgs[pi].files.iter().position(|f| f.path == path).map(|fi| self.offset(pi) + fi)
+  }
+  /// the tracer request over all modules of all packages; every package is analysed from its entrypoints
+  pub fn trace_request(&self, names: &mut Names) -> String {
+    let mut mods = vec![];
+    for (pi, p) in self.pkgs.iter().enumerate() {
+      for f in &p.files {
+        let mut decls = vec![];
+        let mut imports = vec![];
+        let mut froms = vec![];
+        let mut stars = vec![];
+        let mut locals = vec![];
+        for it in &f.items {
+          match it {
+            Item::Decl(d) => decls.push(format!(
+              "({} {} {} (refs {}))",
+              names.id(&d.name),
+              d.exported as u8,
+              d.is_default as u8,
+              d.sig_refs.iter().map(|r| names.id(r).to_string()).collect::<Vec<_>>().join(" ")
+            )),
+            Item::Import { from, names: ns, .. } => {
+              if let Some(j) = self.module_index(pi, from) {
+                for (n, l) in ns {
+                  imports.push(format!("({} {} {})", names.id(l), j, names.id(n)));
+                }
+              }
+            }
+            Item::ImportDefault { from, local } => {
+              if let Some(j) = self.module_index(pi, from) {
+                imports.push(format!("({} {} 0)", names.id(local), j));
+              }
+            }
+            Item::ImportNs { .. } => {}
+            Item::ExportFrom { from, names: ns } => {
+              if let Some(j) = self.module_index(pi, from) {
+                for (n, e) in ns {
+                  froms.push(format!("({} {} {})", names.id(e), j, names.id(n)));
+                }
+              }
+            }
+            Item::ExportStar { from } => {
+              if let Some(j) = self.module_index(pi, from) {
+                stars.push(j.to_string());
+              }
+            }
+            Item::ExportLocal { names: ns } => {
+              for (l, e) in ns {
+                locals.push(format!("({} {})", names.id(e), names.id(l)));
+              }
+            }
+            Item::SideEffect(_) => {}
+          }
+        }
+        mods.push(format!("((decls {}) (imports {}) (from {}) (stars {}) (locals {}))", decls.join(" "), imports.join(" "), froms.join(" "), stars.join(" "), locals.join(" ")));
+      }
+    }
+    let entries: Vec<String> = (0..self.pkgs.len()).filter_map(|pi| self.module_index(pi, &format!("jsr:{}", self.pkgs[pi].name))).map(|i| i.to_string()).collect();
+    format!("(fc-trace (mods {}) (entries {}))", mods.join(" "), entries.join(" "))
+  }
+  /// what the implementation retained, in the model's tokens
+  pub fn retained_tokens(&self, run: &FcRun, names: &mut Names) -> Result<String, String> {
+    let mut toks = vec![];
+    for (pi, p) in self.pkgs.iter().enumerate() {
+      for (fi, f) in p.files.iter().enumerate() {
+        let i = self.offset(pi) + fi;
+        let url = format!("https://jsr.io/{}/{}{}", p.name, p.version, f.path);
+        match run.slots.get(&url) {
+          Some(FcSlot::Module { text, .. }) => {
+            toks.push(format!("M{}", i));
+            let parsed = fcx::parse(&url, text)?;
+            let x = fcx::X { src: &parsed };
+            for (n, _, _) in x.top_level() {
+              if n == "compute" {
+                continue;
+              }
+              toks.push(format!("D{}.{}", i, names.id(&n)));
+            }
+            for (local, _, _) in x.imports() {
+              if !local.is_empty() {
+                toks.push(format!("I{}.{}", i, names.id(&local)));
+              }
+            }
+            for (exported, src) in x.exports() {
+              match src {
+                Some((from, orig)) if orig == "*" && exported == "*" => {
+                  if let Some(j) = self.module_index(pi, &from) {
+                    toks.push(format!("S{}.{}", i, j));
+                  }
+                }
+                Some((from, _)) if !from.is_empty() => toks.push(format!("F{}.{}", i, names.id(&exported))),
+                Some((_, _)) => toks.push(format!("L{}.{}", i, names.id(&exported))),
+                None => {}
+              }
+            }
+          }
+          Some(FcSlot::Diagnostics(d)) => return Err(format!("diagnostics: {:?}", d)),
+          _ => {}
+        }
+      }
+    }
+    let set: BTreeSet<String> = toks.into_iter().collect();
+    Ok(set.into_iter().collect::<Vec<_>>().join(" "))
+  }
 }
 
 pub fn world_of(p: &APkg) -> FcWorld {
@@ -553,6 +792,103 @@ struct Case {
   replay: serde_json::Value,
 }
 
+/// packages in which the same target modules are reached by every kind of trace — named import,
+/// default import, `export *`, named and default re-export — from several modules and in varying
+/// statement order, so that a module is traced several times with growing demands
+pub fn gen_multi_trace_pkg(rng: &mut Rng, _idx: usize) -> APkg {
+  let nt = 1 + rng.below(2);
+  let np = 2 + rng.below(2);
+  let mut files: Vec<AFile> = vec![];
+  let iface = |name: &str, exported: bool| Decl {
+    name: name.to_string(),
+    exported,
+    is_default: false,
+    kind: DeclKind::Interface { extends: vec![], props: vec![("a".into(), "string".into())] },
+    sig_refs: vec![],
+    body_refs: vec![],
+    generics: String::new(),
+  };
+  // entry: star re-exports of the p modules
+  let mut order: Vec<usize> = (0..np).collect();
+  rng.shuffle(&mut order);
+  let mut entry_items: Vec<Item> = order.iter().map(|k| Item::ExportStar { from: format!("./f{}.ts", 1 + k) }).collect();
+  entry_items.push(Item::SideEffect("console.log(\"side effect\");".into()));
+  files.push(AFile { path: "/mod.ts".into(), items: entry_items });
+  // p modules
+  for k in 0..np {
+    let mut items: Vec<Item> = vec![];
+    let mut decls: Vec<Item> = vec![];
+    let mut stmts: Vec<Item> = vec![];
+    for t in 0..nt {
+      let from = format!("./f{}.ts", 1 + np + t);
+      let mut forms: Vec<usize> = (0..5).filter(|_| rng.chance(1, 2)).collect();
+      rng.shuffle(&mut forms);
+      for f in forms {
+        match f {
+          0 => {
+            let local = format!("X{}in{}", t, k);
+            stmts.push(Item::Import { from: from.clone(), names: vec![(format!("X{}", t), local.clone())], type_only: rng.chance(1, 2) });
+            decls.push(Item::Decl(Decl {
+              name: format!("UsesX{}_{}", t, k),
+              exported: true,
+              is_default: false,
+              kind: DeclKind::Interface { extends: vec![], props: vec![("x".into(), local.clone())] },
+              sig_refs: vec![local],
+              body_refs: vec![],
+              generics: String::new(),
+            }));
+          }
+          1 => {
+            let local = format!("D{}in{}", t, k);
+            stmts.push(Item::ImportDefault { from: from.clone(), local: local.clone() });
+            decls.push(Item::Decl(Decl {
+              name: format!("UsesD{}_{}", t, k),
+              exported: true,
+              is_default: false,
+              kind: DeclKind::Interface { extends: vec![], props: vec![("d".into(), local.clone())] },
+              sig_refs: vec![local],
+              body_refs: vec![],
+              generics: String::new(),
+            }));
+          }
+          2 => stmts.push(Item::ExportStar { from: from.clone() }),
+          3 => stmts.push(Item::ExportFrom { from: from.clone(), names: vec![(format!("E{}", t), format!("E{}from{}", t, k))] }),
+          _ => stmts.push(Item::ExportFrom { from: from.clone(), names: vec![("default".into(), format!("Def{}from{}", t, k))] }),
+        }
+      }
+    }
+    // statement order matters to the tracer: keep the shuffled order of the forms
+    items.extend(stmts);
+    items.extend(decls);
+    items.push(Item::SideEffect("console.log(\"side effect\");".into()));
+    files.push(AFile { path: format!("/f{}.ts", 1 + k), items });
+  }
+  // targets: an interface, an extra exported interface, a private one the default class refers to, a default class
+  for t in 0..nt {
+    let items = vec![
+      Item::Decl(iface(&format!("X{}", t), true)),
+      Item::Decl(iface(&format!("E{}", t), true)),
+      Item::Decl(iface(&format!("P{}", t), false)),
+      Item::Decl(Decl {
+        name: format!("D{}", t),
+        exported: true,
+        is_default: true,
+        kind: DeclKind::Class {
+          extends: None,
+          implements: vec![],
+          members: vec![Member::Prop { name: "p".into(), access: Access::Pub, is_static: false, readonly: false, ty: Some(format!("P{}", t)), init: None }],
+        },
+        sig_refs: vec![format!("P{}", t)],
+        body_refs: vec![],
+        generics: String::new(),
+      }),
+      Item::SideEffect("console.log(\"side effect\");".into()),
+    ];
+    files.push(AFile { path: format!("/f{}.ts", 1 + np + t), items });
+  }
+  APkg { name: "@s/a".into(), version: "1.0.0".into(), exports: vec![(".".to_string(), "./mod.ts".to_string())], files }
+}
+
 fn cases(tier: &str, seed: u64, salt: u64, quick: usize, thorough: usize) -> Vec<Case> {
   crate::build::quiet_panics();
   let mut rng = Rng::new(seed ^ salt);
@@ -560,7 +896,7 @@ fn cases(tier: &str, seed: u64, salt: u64, quick: usize, thorough: usize) -> Vec
   let mut out = vec![];
   for i in 0..n {
     let mut pr = rng.fork();
-    let pkg = gen_pkg(&mut pr, i);
+    let pkg = if i % 4 == 3 { gen_multi_trace_pkg(&mut pr, i) } else { gen_pkg(&mut pr, i) };
     let world = world_of(&pkg);
     let run = run_fast_check(&world, None, false);
     let replay = json!({"world": world.describe()});
@@ -659,6 +995,51 @@ pub fn run_c11(tier: &str, seed: u64) -> Report {
     report.count_n("declarations-dropped", dropped as u64);
     if i < 2 {
       report.sample(c.replay.clone());
+    }
+  }
+  // several packages referring to each other's entrypoints, all analysed from their entrypoints
+  {
+    let mut rng = Rng::new(seed ^ 0xC11 ^ 0x77);
+    let n = if tier == "thorough" { 3000 } else { 300 };
+    for i in 0..n {
+      let mut pr = rng.fork();
+      let mw = gen_multi(&mut pr, i, false);
+      let world = mw.world();
+      let replay = json!({"multi_package_world": world.describe()});
+      batch.descs.push(replay.clone());
+      report.evaluations += 1;
+      let run = run_fast_check(&world, None, false);
+      if !run.graph_errors.is_empty() {
+        report.fail("oracle", "generated-package-does-not-build", run.graph_errors.join(" | "), replay.clone());
+        continue;
+      }
+      let mut names = Names { list: vec!["default".into()] };
+      let req = mw.trace_request(&mut names);
+      match mw.retained_tokens(&run, &mut names) {
+        Ok(t) => batch.push(req, t, true),
+        Err(e) => {
+          report.fail("oracle", "unexpected-diagnostics", e, replay.clone());
+          continue;
+        }
+      }
+      // every package's entrypoint keeps its export items
+      for p in &mw.pkgs {
+        let f = &p.files[0];
+        let url = format!("https://jsr.io/{}/{}{}", p.name, p.version, f.path);
+        let Some(FcSlot::Module { text, .. }) = run.slots.get(&url) else {
+          report.fail("oracle", "entrypoint-without-emitted-module", url.clone(), replay.clone());
+          continue;
+        };
+        let Ok(parsed) = fcx::parse(&url, text) else { continue };
+        let x = fcx::X { src: &parsed };
+        let want = source_exports(f);
+        let got = emitted_exports(&x);
+        if want != got {
+          report.fail("oracle", "entrypoint-export-set-changed", format!("{}: source exports {:?}, emitted exports {:?}", url, want, got), replay.clone());
+        }
+      }
+      report.nontrivial.insert(format!("multi/p{}/cross{}", mw.pkgs.len(), mw.cross.len().min(8)));
+      report.count(&format!("multi-package:cross-items:{}", mw.cross.len().min(8)));
     }
   }
   batch.finish(&mut report, "C11");
